@@ -1,6 +1,404 @@
+(** Proofs about the stream-framing model (Stream.v). *)
 From Coq Require Import ZArith List Bool Lia.
 From KV Require Import Base Stream.
 Import ListNotations.
 Open Scope Z_scope.
 
-Lemma stub_true : True. Proof. exact I. Qed.
+(* ------------------------------------------------------------------ lists with Z indices *)
+
+Lemma st_len_nonneg {A} (l : list A) : 0 <= len l.
+Proof. unfold len. lia. Qed.
+
+Lemma st_len_app {A} (a b : list A) : len (a ++ b) = len a + len b.
+Proof. unfold len. rewrite app_length. lia. Qed.
+
+Lemma st_len_nil {A} : len (@nil A) = 0.
+Proof. reflexivity. Qed.
+
+Lemma st_len_zero {A} (l : list A) : len l = 0 -> l = [].
+Proof. unfold len. destruct l; cbn [length]; [reflexivity | lia]. Qed.
+
+Lemma st_len_take {A} (n : Z) (l : list A) : len (take n l) = Z.max 0 (Z.min n (len l)).
+Proof. unfold len, take. rewrite firstn_length. lia. Qed.
+
+Lemma st_len_drop {A} (n : Z) (l : list A) : len (drop n l) = len l - Z.max 0 (Z.min n (len l)).
+Proof. unfold len, drop. rewrite skipn_length. lia. Qed.
+
+Lemma st_take_drop {A} (n : Z) (l : list A) : take n l ++ drop n l = l.
+Proof. unfold take, drop. apply firstn_skipn. Qed.
+
+Lemma st_take_all {A} (n : Z) (l : list A) : len l <= n -> take n l = l.
+Proof. unfold len, take. intros H. apply firstn_all2. lia. Qed.
+
+Lemma st_take_app_exact {A} (a b : list A) : take (len a) (a ++ b) = a.
+Proof.
+  unfold take, len. rewrite Nat2Z.id. rewrite firstn_app. rewrite Nat.sub_diag. cbn [firstn].
+  rewrite firstn_all. apply app_nil_r.
+Qed.
+
+Lemma st_drop_app_exact {A} (a b : list A) : drop (len a) (a ++ b) = b.
+Proof.
+  unfold drop, len. rewrite Nat2Z.id. rewrite skipn_app. rewrite Nat.sub_diag. cbn [skipn].
+  rewrite skipn_all. reflexivity.
+Qed.
+
+Lemma st_take_app_le {A} (n : Z) (a b : list A) : n <= len a -> take n (a ++ b) = take n a.
+Proof.
+  unfold take, len. intros H. rewrite firstn_app.
+  replace (Z.to_nat n - length a)%nat with 0%nat by lia. cbn [firstn]. apply app_nil_r.
+Qed.
+
+Lemma st_take_0 {A} (l : list A) : take 0 l = [].
+Proof. reflexivity. Qed.
+
+Lemma st_drop_0 {A} (l : list A) : drop 0 l = l.
+Proof. reflexivity. Qed.
+
+(** splitting at a position inside the first part *)
+Lemma st_app_split {A} (n : Z) (l : list A) : 0 <= n <= len l -> exists a b, l = a ++ b /\ len a = n.
+Proof.
+  intros H. exists (take n l), (drop n l). split; [symmetry; apply st_take_drop|].
+  rewrite st_len_take. lia.
+Qed.
+
+(* ------------------------------------------------------------------ integers *)
+
+Lemma wrap_small W v : 0 < W -> - 2 ^ (W - 1) <= v < 2 ^ (W - 1) -> wrap W v = v.
+Proof.
+  intros HW Hv. unfold wrap.
+  assert (Hp : 2 ^ W = 2 * 2 ^ (W - 1)).
+  { replace W with (Z.succ (W - 1)) at 1 by lia. rewrite Z.pow_succ_r by lia. reflexivity. }
+  assert (Hpos : 0 < 2 ^ (W - 1)) by (apply Z.pow_pos_nonneg; lia).
+  destruct (Z_lt_le_dec v 0) as [Hneg|Hnn].
+  - replace (v mod 2 ^ W) with (v + 2 ^ W).
+    + destruct (Z.ltb_spec (v + 2 ^ W) (2 ^ (W - 1))); lia.
+    + rewrite <- (Z.mod_small (v + 2 ^ W) (2 ^ W)) at 1 by lia.
+      replace (v + 2 ^ W) with (v + 1 * 2 ^ W) by lia. apply Z.mod_add. lia.
+  - rewrite Z.mod_small by lia. destruct (Z.ltb_spec v (2 ^ (W - 1))); lia.
+Qed.
+
+Lemma pad8_range l : 0 <= pad8 l < 8.
+Proof. unfold pad8. apply Z.mod_pos_bound. lia. Qed.
+
+Lemma pad_for_len8_nonneg l : 0 <= l -> pad_for_len8 l = pad8 l.
+Proof.
+  intros H. unfold pad_for_len8, pad8.
+  rewrite (Z.rem_mod_nonneg l 8) by lia.
+  pose proof (Z.mod_pos_bound l 8 ltac:(lia)).
+  rewrite Z.rem_mod_nonneg by lia. reflexivity.
+Qed.
+
+Lemma padded_mult8 l : (l + pad8 l) mod 8 = 0.
+Proof.
+  unfold pad8. pose proof (Z.mod_pos_bound l 8 ltac:(lia)) as Hb.
+  destruct (Z.eq_dec (l mod 8) 0) as [E|E].
+  - rewrite E. change ((8 - 0) mod 8) with 0. rewrite Z.add_0_r. exact E.
+  - rewrite (Z.mod_small (8 - l mod 8) 8) by lia.
+    rewrite (Z.div_mod l 8) at 1 by lia.
+    replace (8 * (l / 8) + l mod 8 + (8 - l mod 8)) with ((l / 8 + 1) * 8) by lia.
+    apply Z.mod_mul. lia.
+Qed.
+
+Lemma unbe_be4 l : 0 <= l < 2 ^ 32 -> unbe (be 4 l) = l.
+Proof.
+  intros H. unfold unbe, be. cbn [fold_left].
+  change (256 ^ Z.of_nat 3) with 16777216. change (256 ^ Z.of_nat 2) with 65536.
+  change (256 ^ Z.of_nat 1) with 256. change (256 ^ Z.of_nat 0) with 1.
+  change (2 ^ 32) with 4294967296 in H.
+  Z.div_mod_to_equations. lia.
+Qed.
+
+Lemma be4_length l : length (be 4 l) = 4%nat.
+Proof. reflexivity. Qed.
+
+(** [computeNeededBytes] on anything that starts with a header announcing length [l] *)
+Lemma needed_bytes_header tag ty l x :
+  length tag = 3%nat -> 0 <= l < 2 ^ 32 ->
+  needed_bytes 64 (tag ++ [ty] ++ be 4 l ++ x) = 8 + l + pad8 l.
+Proof.
+  intros Ht Hl. unfold needed_bytes, rd_padded_len, rd_len.
+  destruct tag as [|t0 [|t1 [|t2 [|? ?]]]]; try discriminate Ht.
+  set (b := be 4 l).
+  assert (Hb : exists b0 b1 b2 b3, b = [b0; b1; b2; b3]) by (unfold b, be; eauto).
+  destruct Hb as (b0 & b1 & b2 & b3 & Hb).
+  assert (Hu : unbe [b0; b1; b2; b3] = l) by (rewrite <- Hb; apply unbe_be4; exact Hl).
+  rewrite Hb. cbn [app].
+  assert (Hlen : len (t0 :: t1 :: t2 :: ty :: b0 :: b1 :: b2 :: b3 :: x) = 8 + len x).
+  { unfold len. cbn [length]. lia. }
+  rewrite Hlen. pose proof (st_len_nonneg x) as Hx.
+  destruct (Z.ltb_spec (8 + len x) 8) as [?|_]; [lia|].
+  destruct (Z.eqb_spec (8 + len x) 0) as [?|_]; [lia|].
+  change (take 4 (drop 4 (t0 :: t1 :: t2 :: ty :: b0 :: b1 :: b2 :: b3 :: x))) with [b0; b1; b2; b3].
+  rewrite Hu.
+  pose proof (pad8_range l) as Hp.
+  assert (H31 : 2 ^ 32 < 2 ^ (64 - 1) - 16) by (vm_compute; reflexivity).
+  assert (H63 : 0 < 2 ^ (64 - 1)) by (vm_compute; reflexivity).
+  rewrite (wrap_small 64 l) by lia.
+  rewrite pad_for_len8_nonneg by lia.
+  rewrite (wrap_small 64 (l + pad8 l)) by lia.
+  rewrite wrap_small by lia. lia.
+Qed.
+
+Lemma needed_bytes_short W buf : len buf < 8 -> needed_bytes W buf = 8.
+Proof. intros H. unfold needed_bytes. destruct (Z.ltb_spec (len buf) 8); [reflexivity | lia]. Qed.
+
+(** [computeNeededBytes] only looks at the first 8 bytes *)
+Lemma needed_bytes_prefix W buf x : 8 <= len buf -> needed_bytes W (buf ++ x) = needed_bytes W buf.
+Proof.
+  intros H. unfold needed_bytes, rd_padded_len, rd_len.
+  rewrite st_len_app. pose proof (st_len_nonneg x) as Hx.
+  destruct (Z.ltb_spec (len buf + len x) 8) as [?|_]; [lia|].
+  destruct (Z.ltb_spec (len buf) 8) as [?|_]; [lia|].
+  destruct (Z.eqb_spec (len buf + len x) 0) as [?|_]; [lia|].
+  destruct (Z.eqb_spec (len buf) 0) as [?|_]; [lia|].
+  assert (E : take 4 (drop 4 (buf ++ x)) = take 4 (drop 4 buf)).
+  { unfold take, drop, len in *. rewrite skipn_app. rewrite firstn_app.
+    rewrite skipn_length.
+    replace (Z.to_nat 4 - (length buf - Z.to_nat 4))%nat with 0%nat by lia.
+    cbn [firstn]. apply app_nil_r. }
+  rewrite E. reflexivity.
+Qed.
+
+(* ------------------------------------------------------------------ the transport *)
+
+Lemma clip_range k want avail : 0 <= clip k want avail /\ clip k want avail <= Z.max 0 want /\ clip k want avail <= Z.max 0 avail.
+Proof. unfold clip. lia. Qed.
+
+Lemma st_take_drop_split {A} n (l : list A) : l = take n l ++ drop n l.
+Proof. symmetry. apply st_take_drop. Qed.
+
+(** What every answer satisfies: bytes come in order, at most [want] of them. *)
+Lemma tr_read_gen t want chunk err t' :
+  tr_read t want = (chunk, err, t') ->
+  t_rest t = chunk ++ t_rest t' /\ t_end t' = t_end t /\ len chunk <= Z.max 0 want /\
+  (length (t_sched t') <= length (t_sched t))%nat.
+Proof.
+  unfold tr_read. intros H.
+  pose proof (st_len_nonneg (t_rest t)) as Hav.
+  destruct (t_sched t) as [|[k a|k e] s] eqn:Hs.
+  - destruct (Z.eqb_spec (len (t_rest t)) 0) as [E|E].
+    + inversion H; subst. cbn [app]. rewrite Hs. repeat split; try reflexivity; try rewrite st_len_nil; cbn [length]; lia.
+    + inversion H; subst; cbn [t_rest t_end t_sched]. repeat split.
+      * apply st_take_drop_split.
+      * rewrite st_len_take. pose proof (clip_range want want (len (t_rest t))). lia.
+      * cbn. lia.
+  - destruct (Z.eqb_spec (len (t_rest t)) 0) as [E|E].
+    + inversion H; subst; cbn [t_rest t_end t_sched app length]. repeat split; try reflexivity; try rewrite st_len_nil; lia.
+    + inversion H; subst; cbn [t_rest t_end t_sched length]. repeat split.
+      * apply st_take_drop_split.
+      * rewrite st_len_take. pose proof (clip_range k want (len (t_rest t))). lia.
+      * lia.
+  - inversion H; subst; cbn [t_rest t_end t_sched length]. repeat split.
+    + apply st_take_drop_split.
+    + rewrite st_len_take. pose proof (clip_range k want (len (t_rest t))). lia.
+    + lia.
+Qed.
+
+(** For the termination measure: an answer of the schedule is used up, or the schedule
+    is exhausted and the read is served as fully as possible. *)
+Lemma tr_read_measure t want chunk err t' :
+  tr_read t want = (chunk, err, t') -> 0 < want ->
+  (S (length (t_sched t')) = length (t_sched t))
+  \/ (t_sched t = [] /\ t_sched t' = [] /\ (len chunk = want \/ t_rest t' = [])).
+Proof.
+  unfold tr_read. intros H Hw.
+  pose proof (st_len_nonneg (t_rest t)) as Hav.
+  destruct (t_sched t) as [|[k a|k e] s] eqn:Hs.
+  - right. destruct (Z.eqb_spec (len (t_rest t)) 0) as [E|E].
+    + inversion H; subst. rewrite Hs. repeat split. right. apply st_len_zero. exact E.
+    + inversion H; subst; cbn [t_rest t_end t_sched]. repeat split.
+      rewrite st_len_take. unfold clip.
+      destruct (Z_le_gt_dec want (len (t_rest t))) as [Hle|Hgt].
+      * left. lia.
+      * right. apply st_len_zero. rewrite st_len_drop. lia.
+  - left. destruct (Z.eqb_spec (len (t_rest t)) 0); inversion H; subst; reflexivity.
+  - left. inversion H; subst; reflexivity.
+Qed.
+
+(** A faithful schedule: progress, and the end error only with or after the last bytes. *)
+Lemma tr_read_faithful t want chunk err t' :
+  tr_read t want = (chunk, err, t') -> 0 < want -> faithful (t_sched t) ->
+  faithful (t_sched t') /\
+  (t_rest t = [] -> chunk = [] /\ err = Some (t_end t)) /\
+  (t_rest t <> [] -> 1 <= len chunk /\ (err = None \/ (err = Some (t_end t) /\ t_rest t' = []))).
+Proof.
+  unfold tr_read. intros H Hw Hf.
+  pose proof (st_len_nonneg (t_rest t)) as Hav.
+  assert (Hne : t_rest t <> [] -> 0 < len (t_rest t)).
+  { intros Hn. destruct (t_rest t); [congruence | unfold len; cbn [length]; lia]. }
+  destruct (t_sched t) as [|[k a|k e] s] eqn:Hs.
+  - destruct (Z.eqb_spec (len (t_rest t)) 0) as [E|E].
+    + inversion H; subst. rewrite Hs. split; [exact I|]. split; [intros _; split; reflexivity|].
+      intros Hn. specialize (Hne Hn). lia.
+    + inversion H; subst; cbn [t_rest t_end t_sched]. split; [exact I|]. split.
+      * intros Hn. rewrite Hn in E. cbn in E. congruence.
+      * intros Hn. specialize (Hne Hn). split; [|left; reflexivity].
+        rewrite st_len_take. unfold clip. lia.
+  - cbn [faithful] in Hf. destruct Hf as [Hk Hf].
+    destruct (Z.eqb_spec (len (t_rest t)) 0) as [E|E].
+    + inversion H; subst; cbn [t_rest t_end t_sched]. split; [exact Hf|]. split; [intros _; split; reflexivity|].
+      intros Hn. specialize (Hne Hn). lia.
+    + inversion H; subst; cbn [t_rest t_end t_sched]. split; [exact Hf|]. split.
+      * intros Hn. rewrite Hn in E. cbn in E. congruence.
+      * intros Hn. specialize (Hne Hn). split.
+        -- rewrite st_len_take. unfold clip. lia.
+        -- destruct a; cbn [andb]; [|left; reflexivity].
+           destruct (Z.eqb_spec (clip k want (len (t_rest t))) (len (t_rest t))) as [Ec|Ec]; [|left; reflexivity].
+           right. split; [reflexivity|]. apply st_len_zero. rewrite st_len_drop. rewrite Ec. lia.
+  - cbn [faithful] in Hf. contradiction.
+Qed.
+
+(* ------------------------------------------------------------------ one iteration *)
+
+Fixpoint tsum (tr : list (Z * Z)) : Z :=
+  match tr with
+  | [] => 0
+  | (_, n) :: r => n + tsum r
+  end.
+
+Lemma consumed_tsum {M} (r : rres M) : consumed r = tsum (r_trace r).
+Proof.
+  unfold consumed. induction (r_trace r) as [|[w n] l IH]; cbn [fold_right tsum snd]; [reflexivity | rewrite IH; reflexivity].
+Qed.
+
+Lemma tsum_app a b : tsum (a ++ b) = tsum a + tsum b.
+Proof. induction a as [|[w n] a IH]; cbn [app tsum]; [lia | rewrite IH; lia]. Qed.
+
+Section Step.
+  Variable M : Type.
+  Variable um : list Z -> res M.
+  Variable W : Z.
+  Variable max : Z.
+
+  Notation recv_step := (recv_step M um W max).
+  Notation recv_loop := (recv_loop M um W max).
+  Notation recv := (recv M um W max).
+
+  (** [read = len(buf[:read])] and [need = computeNeededBytes(buf[:read])] at the loop head *)
+  Definition inv0 (s : lstate) : Prop :=
+    l_read s = len (l_buf s) /\ l_need s = needed_bytes W (l_buf s).
+
+  (** The iteration with the slice expressions simplified under [inv0]. *)
+  Definition step_simpl (s : lstate) (chunk : list Z) (err : option Z) (t' : tr) : step_res M :=
+    let read := l_read s in
+    let need := l_need s in
+    let cap := if need >? l_cap s then grow_cap (l_cap s) need else l_cap s in
+    let trace := l_trace s ++ [(need - read, len chunk)] in
+    if (read >? need) || (need >? cap) then Done M (mkRes RPanic (l_tr s) cap (l_trace s)) else
+    if len chunk =? 0 then
+      match err with
+      | Some e => Done M (mkRes (RErr e) t' cap trace)
+      | None => Done M (mkRes (RZero (read =? 0)) t' cap trace)
+      end
+    else
+      let buf := l_buf s ++ chunk in
+      let read' := read + len chunk in
+      let need' := needed_bytes W buf in
+      if (0 <? max) && (need' >? max) then Done M (mkRes RTooBig t' cap trace) else
+      if need' <=? read' then
+        if (need' <? 0) || (need' >? cap) then Done M (mkRes RPanic t' cap trace)
+        else Done M (mkRes (RMsg (um (take need' buf))) t' cap trace)
+      else
+        match err with
+        | Some e => Done M (mkRes (RErr e) t' cap trace)
+        | None => Continue M (mkL t' buf read' need' cap trace)
+        end.
+
+  Lemma recv_step_simpl s chunk err t' :
+    inv0 s -> tr_read (l_tr s) (l_need s - l_read s) = (chunk, err, t') ->
+    recv_step s = step_simpl s chunk err t'.
+  Proof.
+    intros [Hr Hn] Ht. unfold recv_step, step_simpl. rewrite Ht.
+    pose proof (st_len_nonneg (l_buf s)) as Hb.
+    destruct (Z.ltb_spec (l_read s) 0) as [?|_]; [lia|]. cbn [orb].
+    rewrite (st_take_all (l_read s) (l_buf s)) by lia.
+    rewrite (st_take_all (l_read s + len chunk) (l_buf s ++ chunk)) by (rewrite st_len_app; lia).
+    reflexivity.
+  Qed.
+
+  Lemma inv0_init t : inv0 (recv_init t).
+  Proof. split; reflexivity. Qed.
+
+  Lemma inv0_continue s chunk err t' s' :
+    inv0 s -> step_simpl s chunk err t' = Continue M s' ->
+    inv0 s' /\ err = None /\ l_tr s' = t' /\ l_buf s' = l_buf s ++ chunk /\ 0 < len chunk /\
+    l_read s' < l_need s' /\ l_read s <= l_need s /\
+    l_trace s' = l_trace s ++ [(l_need s - l_read s, len chunk)] /\
+    l_cap s' = (if l_need s >? l_cap s then grow_cap (l_cap s) (l_need s) else l_cap s) /\
+    l_need s <= l_cap s'.
+  Proof.
+    intros [Hr Hn] H. unfold step_simpl in H.
+    pose proof (st_len_nonneg chunk) as Hc.
+    destruct (_ || _) eqn:Hp in H; [discriminate|].
+    apply orb_false_iff in Hp. destruct Hp as [Hp1 Hp2].
+    destruct (Z.eqb_spec (len chunk) 0) as [?|Hne]; [destruct err; discriminate|].
+    destruct (_ && _) in H; [discriminate|].
+    destruct (Z.leb_spec (needed_bytes W (l_buf s ++ chunk)) (l_read s + len chunk)) as [?|Hlt].
+    { destruct (_ || _) in H; discriminate. }
+    destruct err; [discriminate|]. inversion H; subst s'; unfold inv0; cbn [l_tr l_buf l_read l_need l_cap l_trace].
+    assert (l_read s <= l_need s) by (destruct (Z.gtb_spec (l_read s) (l_need s)); [discriminate | lia]).
+    assert (l_need s <= (if l_need s >? l_cap s then grow_cap (l_cap s) (l_need s) else l_cap s))
+      by (destruct (Z.gtb_spec (l_need s) (if l_need s >? l_cap s then grow_cap (l_cap s) (l_need s) else l_cap s)); [discriminate | lia]).
+    repeat split; try reflexivity; try rewrite st_len_app; try lia.
+  Qed.
+
+  (* ---------------------------------------------------------------- termination *)
+
+  Definition mu (s : lstate) : nat :=
+    (length (t_sched (l_tr s)) + (if (l_read s <? 8)%Z then 1 else 0)
+     + (match t_rest (l_tr s) with [] => 0 | _ => 1 end))%nat.
+
+  Lemma step_measure s s' : inv0 s -> recv_step s = Continue M s' -> (mu s' < mu s)%nat.
+  Proof.
+    intros Hi H.
+    destruct (tr_read (l_tr s) (l_need s - l_read s)) as [[chunk err] t'] eqn:Ht.
+    rewrite (recv_step_simpl s chunk err t' Hi Ht) in H.
+    destruct (inv0_continue s chunk err t' s' Hi H) as (Hi' & He & Htr & Hbuf & Hc & Hlt & Hle & _).
+    destruct Hi as [Hr Hn]. destruct Hi' as [Hr' Hn'].
+    pose proof (tr_read_gen _ _ _ _ _ Ht) as (Hsplit & _ & Hcw & _).
+    assert (Hw : 0 < l_need s - l_read s) by lia.
+    pose proof (tr_read_measure _ _ _ _ _ Ht Hw) as Hm.
+    assert (Hrest : (match t_rest t' with [] => 0 | _ => 1 end <= match t_rest (l_tr s) with [] => 0 | _ => 1 end)%nat).
+    { rewrite Hsplit. destruct chunk; [cbn in Hc; lia|]. cbn [app]. destruct (t_rest t'); lia. }
+    assert (Hread' : l_read s' = l_read s + len chunk) by (rewrite Hr', Hbuf, st_len_app; lia).
+    unfold mu. rewrite Htr.
+    assert (Hph : ((if (l_read s' <? 8)%Z then 1 else 0) <= (if (l_read s <? 8)%Z then 1 else 0))%nat).
+    { destruct (Z.ltb_spec (l_read s') 8), (Z.ltb_spec (l_read s) 8); lia. }
+    destruct Hm as [Hm | (Hs1 & Hs2 & [Hfull | Hdrained])].
+    - lia.
+    - (* the read was served in full: the header is complete now (the message would be otherwise) *)
+      rewrite Hs1, Hs2. cbn [length].
+      destruct (Z.ltb_spec (l_read s) 8) as [Hh|Hh].
+      + assert (l_need s = 8) by (rewrite Hn; apply needed_bytes_short; lia).
+        destruct (Z.ltb_spec (l_read s') 8); lia.
+      + exfalso. rewrite Hn' in Hlt. rewrite Hbuf in Hlt. rewrite needed_bytes_prefix in Hlt by lia.
+        rewrite <- Hn in Hlt. lia.
+    - rewrite Hs1, Hs2, Hdrained. cbn [length].
+      rewrite Hsplit. destruct chunk; [cbn in Hc; lia|]. cbn [app]. lia.
+  Qed.
+
+  Lemma recv_loop_terminates fuel : forall s,
+    inv0 s -> (mu s < fuel)%nat -> r_out (recv_loop fuel s) <> RFuel.
+  Proof.
+    induction fuel as [|f IH]; intros s Hi Hm; [lia|].
+    cbn [recv_loop]. destruct (recv_step s) as [r|s'] eqn:Hs.
+    - destruct (tr_read (l_tr s) (l_need s - l_read s)) as [[chunk err] t'] eqn:Ht.
+      rewrite (recv_step_simpl s chunk err t' Hi Ht) in Hs. unfold step_simpl in Hs.
+      repeat match type of Hs with
+      | (if ?c then _ else _) = _ => destruct c
+      | match ?e with Some _ => _ | None => _ end = _ => destruct e
+      end; inversion Hs; subst r; cbn [r_out]; discriminate.
+    - pose proof (step_measure s s' Hi Hs) as Hlt.
+      destruct (tr_read (l_tr s) (l_need s - l_read s)) as [[chunk err] t'] eqn:Ht.
+      rewrite (recv_step_simpl s chunk err t' Hi Ht) in Hs.
+      destruct (inv0_continue s chunk err t' s' Hi Hs) as (Hi' & _).
+      apply IH; [exact Hi' | lia].
+  Qed.
+
+  (** [Recv] always returns: whatever the stream holds and however the transport answers. *)
+  Lemma recv_terminates t : r_out (recv t) <> RFuel.
+  Proof.
+    unfold recv. apply recv_loop_terminates; [apply inv0_init|].
+    unfold mu, recv_init; cbn [l_tr l_read]. destruct (t_rest t); cbn; lia.
+  Qed.
+End Step.
